@@ -15,6 +15,10 @@ import (
 	"sync"
 	"time"
 
+	"go/ast"
+	"go/parser"
+	"go/printer"
+	"go/token"
 	vexec "verif/engine/exec"
 )
 
@@ -261,6 +265,9 @@ func nativeRunOnce(cases []nativeCase, race bool) ([]nativeResult, string, error
 	if race {
 		args = append(args, "-race")
 	}
+	if os.Getenv("VERIF_SCHED_DEBUG") != "" {
+		args = append(args, "-v")
+	}
 	args = append(args, ".")
 	cmd := exec.Command("go", args...)
 	cmd.Dir = repoDir
@@ -299,12 +306,19 @@ func instrumentLocks(ov map[string]string, wd string) error {
 			return err
 		}
 		src := string(b)
-		if !strings.Contains(src, "sync.RWMutex") && !strings.Contains(src, "sync.Mutex") {
+		hasLocks := strings.Contains(src, "sync.RWMutex") || strings.Contains(src, "sync.Mutex")
+		withYields, changed := instrumentChanOps(f, b)
+		if !hasLocks && !changed {
 			continue
 		}
-		src = strings.ReplaceAll(src, "sync.RWMutex", "verifRWMutex")
-		src = strings.ReplaceAll(src, "sync.Mutex", "verifMutex")
-		src += "\n\nvar _ = sync.NewCond // keeps the import used\n"
+		if changed {
+			src = withYields
+		}
+		if hasLocks {
+			src = strings.ReplaceAll(src, "sync.RWMutex", "verifRWMutex")
+			src = strings.ReplaceAll(src, "sync.Mutex", "verifMutex")
+			src += "\n\nvar _ = sync.NewCond // keeps the import used\n"
+		}
 		out := filepath.Join(wd, "instr_"+filepath.Base(f))
 		if err := os.WriteFile(out, []byte(src), 0644); err != nil {
 			return err
@@ -312,6 +326,68 @@ func instrumentLocks(ov map[string]string, wd string) error {
 		ov[f] = out
 	}
 	return nil
+}
+
+// instrumentChanOps returns src with a call of verifYield() behind every channel operation: as first statement of each
+// communication clause of a select, and behind send and receive statements elsewhere. These are the places where the
+// interleaving exploration may switch threads after a channel operation (engine/exec/sched.go, schedChanOp), so that a
+// recorded schedule can be followed natively.
+func instrumentChanOps(filename string, src []byte) (string, bool) {
+	fset := token.NewFileSet()
+	f, err := parser.ParseFile(fset, filename, src, parser.ParseComments)
+	if err != nil {
+		return "", false
+	}
+	changed := false
+	yield := func() ast.Stmt {
+		changed = true
+		return &ast.ExprStmt{X: &ast.CallExpr{Fun: ast.NewIdent("verifYield")}}
+	}
+	isRecv := func(e ast.Expr) bool {
+		u, ok := e.(*ast.UnaryExpr)
+		return ok && u.Op == token.ARROW
+	}
+	fix := func(list []ast.Stmt) []ast.Stmt {
+		var out []ast.Stmt
+		for _, st := range list {
+			out = append(out, st)
+			switch x := st.(type) {
+			case *ast.SendStmt:
+				out = append(out, yield())
+			case *ast.ExprStmt:
+				if isRecv(x.X) {
+					out = append(out, yield())
+				}
+			case *ast.AssignStmt:
+				for _, r := range x.Rhs {
+					if isRecv(r) {
+						out = append(out, yield())
+						break
+					}
+				}
+			}
+		}
+		return out
+	}
+	ast.Inspect(f, func(n ast.Node) bool {
+		switch x := n.(type) {
+		case *ast.BlockStmt:
+			x.List = fix(x.List)
+		case *ast.CaseClause:
+			x.Body = fix(x.Body)
+		case *ast.CommClause:
+			x.Body = append([]ast.Stmt{yield()}, fix(x.Body)...)
+		}
+		return true
+	})
+	if !changed {
+		return "", false
+	}
+	var sb strings.Builder
+	if err := printer.Fprint(&sb, fset, f); err != nil {
+		return "", false
+	}
+	return sb.String(), true
 }
 
 // normalise JSON-ish values for comparison (numbers to float64).
@@ -840,6 +916,9 @@ func cmdReplay(path string) int {
 		cases = append(cases, nativeCase{Harness: rf.Harness, Cfg: rf.Cfg, Inputs: rf.Inputs})
 	}
 	res, out, err := nativeRun(cases, false)
+	if os.Getenv("VERIF_SCHED_DEBUG") != "" {
+		fmt.Println(out)
+	}
 	if err == nil {
 		for _, r := range res {
 			if len(r.Failures) > 0 {
